@@ -352,6 +352,8 @@ type dcase struct {
 	logical    int64
 	started    time.Time
 	maxSkew    time.Duration
+	noShrink   bool
+	probes     int
 }
 
 func newCase(ctx *nctx.NetCtx) *dcase {
@@ -387,7 +389,49 @@ func (c *dcase) violate(out *xvlib.Out, key, what, impl string) {
 	if out == nil {
 		return
 	}
-	out.Violate(xvlib.Violation{Key: key, What: what, Ops: append([]string{}, c.ops...), Impl: []string{impl}})
+	ops := append([]string{}, c.ops...)
+	n := 0
+	for _, v := range out.Stats.Violations {
+		if v.Key == key {
+			n++
+		}
+	}
+	if !c.noShrink && n < 3 && !strings.Contains(strings.Join(ops, "\n"), "\ntick ") {
+		ops = shrink(c.ctx, ops, key)
+	}
+	out.Violate(xvlib.Violation{Key: key, What: what, Ops: ops, Impl: []string{impl}})
+}
+
+// reproduces: does the op list, run on a fresh dispatcher, raise a violation with this key at its last op
+func reproduces(ctx *nctx.NetCtx, ops []string, key string) bool {
+	c := newCase(ctx)
+	c.noShrink = true
+	c.ops = []string{"reset"}
+	o := &xvlib.Out{Stats: xvlib.Stats{Distribution: map[string]int{}}}
+	for _, l := range ops[1:] {
+		c.exec(l, o, false)
+	}
+	for _, v := range o.Stats.Violations {
+		if v.Key == key && len(v.Ops) == len(ops) {
+			return true
+		}
+	}
+	return false
+}
+
+// shrink drops every op (but the reset and the failing last one) whose removal keeps the violation
+func shrink(ctx *nctx.NetCtx, ops []string, key string) []string {
+	if len(ops) < 3 || ops[0] != "reset" || !reproduces(ctx, ops, key) {
+		return ops
+	}
+	cur := ops
+	for i := len(cur) - 2; i >= 1; i-- {
+		cand := append(append([]string{}, cur[:i]...), cur[i+1:]...)
+		if reproduces(ctx, cand, key) {
+			cur = cand
+		}
+	}
+	return cur
 }
 
 // exec runs one dispatcher op on the real code; `sleep` = really wait on tick
@@ -566,6 +610,30 @@ func (c *dcase) exec(line string, out *xvlib.Out, sleep bool) string {
 	return res
 }
 
+// probeDelivered dispatches the same header under a log id nobody used and tells whether anybody got it
+func (c *dcase) probeDelivered(id msgID) bool {
+	c.probes++
+	m := &pb.XuperMessage{Header: &pb.XuperMessage_MessageHeader{Version: p2p.MessageVersion3, Type: pb.XuperMessage_MessageType(id.typ),
+		Bcname: id.bc, From: id.from, Logid: fmt.Sprintf("%s#xv-probe-%d", id.logid, c.probes), DataCheckSum: id.sum}, Data: &pb.XuperMessage_MessageData{}}
+	c.mu.Lock()
+	c.rec = c.rec[:0]
+	c.mu.Unlock()
+	if err := c.d.Dispatch(m, &stream{}); err != nil {
+		return false
+	}
+	n := 0
+	for _, rs := range c.pool {
+		for rs.ch != nil && len(rs.ch) > 0 {
+			<-rs.ch
+			n++
+		}
+	}
+	c.mu.Lock()
+	n += len(c.rec)
+	c.mu.Unlock()
+	return n > 0
+}
+
 // the property, evaluated on what the real dispatcher did
 func (c *dcase) oracleDispatch(out *xvlib.Out, id msgID, hasStream bool, err error, got []int, res string) {
 	t0, seen := c.handledAt[id]
@@ -621,11 +689,12 @@ func (c *dcase) oracleDispatch(out *xvlib.Out, id msgID, hasStream bool, err err
 				key = "repeat-dropped-outside-window"
 				what = fmt.Sprintf("a repeat %d ms after the message was handled (window %d ms) was dropped", c.logical-t0, windowMs)
 			} else if len(got) == 0 {
-				// dropped although this message was never handled: does another handled message share its key?
+				// dropped although this message was never handled. If the same header under a fresh log id is
+				// delivered, the drop was the de-duplication: the message shares the key of a different handled one.
 				for o, t := range c.handledAt {
-					if o != id && c.logical-t <= windowMs {
+					if o != id && c.logical-t <= windowMs && c.probeDelivered(id) {
 						key = "distinct-message-dropped"
-						what = fmt.Sprintf("message %+v was dropped as a repeat although it was never handled (an earlier, different message %+v was)", id, o)
+						what = fmt.Sprintf("message %+v was dropped as a repeat although it was never handled (an earlier, different message, e.g. %+v, was)", id, o)
 						break
 					}
 				}
@@ -896,7 +965,14 @@ func execStateless(line string, out *xvlib.Out, scratch string) (string, bool) {
 		if w[4] != "1" {
 			resp.Header.From = "peerB"
 		}
-		return strconv.FormatBool(p2p.VerifyMessageType(req, resp, "peerA")), true
+		got := p2p.VerifyMessageType(req, resp, "peerA")
+		// oracle: a response is the expected one iff it comes from the asked peer, carries the request's log id and the request's response type
+		want := w[3] == "1" && w[4] == "1" && p2p.GetRespMessageType(pb.XuperMessage_MessageType(rq)) == pb.XuperMessage_MessageType(rs)
+		if got != want && out != nil {
+			out.Violate(xvlib.Violation{Key: "verify-message-type", What: fmt.Sprintf("VerifyMessageType answered %v for request type %d, response type %d, same log id %s, from the asked peer %s", got, rq, rs, w[3], w[4]),
+				Ops: []string{line}, Impl: []string{strconv.FormatBool(got)}})
+		}
+		return strconv.FormatBool(got), true
 	case w[0] == "msg" && len(w) == 5:
 		return guarded(out, []string{line}, func() string { return execMsg(w, line, out) }), true
 	case w[0] == "cor" && len(w) == 6:
